@@ -14,6 +14,11 @@ CLAIMS = {
    note="std::unordered_map is assumed to be a finite map; uint32 wrap-around of the revision counter is not modelled; switches name existing revisions.",
    technique="Lean 4 invariant proof over operation histories + differential correspondence of the model with the real template",
    ref="DESIGN.md §4 C20"),
+ "C17": dict(
+   text="Lean 4: generic theorem about the if/else-if trie interpreter (for every well-formed trie, every word of any length and every option valuation: recognised as kind k iff some root-to-return path spells exactly that word, carries kind k and has all its guards true) + four kernel-checked (decide) obligations on the trie that translators/keywords.py REGENERATES from C/parser/Keywords.cpp on every run: no sibling shadowing, nothing after nested chains, every keyword path tests exactly positions 0..n-1 (in bounds), distinct case labels, and set-equality of (spelling, kind, gate) with the hand-written specification table (C89/C99/C11 keywords, macro translations, GNU alternate keywords, extension switches). Corollaries: keyword iff exact spelling and gate; every other word (prefixes, one-character edits, case variants) is an identifier; recognition off => identifier or iso646 operator name. The translator is validated each run by lexing ~14k words x 85 option sets through the real SyntaxTree/Lexer and through the generated trie; the spec table evaluated directly is the oracle that yields failing (options, word) pairs.",
+   note="The translator accepts a restricted C++ subset and fails loudly outside it (then: committed trie + full validation, reported as no-failing-input-found). Gates that no standard/manual fixes are recorded from the implementation (listed in KeywordSpec.lean). Reading a character past the word is excluded by the in-bounds obligation, not by running under a sanitizer.",
+   technique="Lean 4 proof over a trie regenerated from the C++ source (translator) + decide obligations + translation validation sweep",
+   ref="DESIGN.md §4 C17"),
  "C18": dict(
    text="Lean 4 theorems (Props/C18.lean) over a model of TextElementTable/TextElement parametric in the hash function: for every hash function and every history of findOrInsert/find calls on NUL-free words, two calls return the same element identity iff the words are bytewise equal, element texts never change, find succeeds exactly on inserted words, chains never hold dangling identities. Tied to the real TextElementTable<Identifier>/<StringLiteral> by exhaustive small histories over adversarial word sets, threshold-crossing and same-bucket histories and random ones; a dict oracle on the implementation's answers yields the failing history (also on 10^4..4*10^5-word runs).",
    note="Words are NUL-free (the lexer cannot produce a NUL inside a lexeme); strncmp/strncpy NUL behaviour is modelled and compared but outside the property; allocation success assumed; the per-tree use (SyntaxTree::findOrInsert*) is exercised by the C05 token checks.",
